@@ -83,14 +83,14 @@ def check_c17(tier, seed):
     consts = dict(Keys=KEYS, MaxCalls=3 if quick else 4, MaxOps=2, MaxDepth=3, Mutants=set())
     cfg = os.path.join(wd, "SC.cfg")
     tlc.write_cfg(cfg, "Spec", consts, invariants=["TypeOK"], view="View")
-    mc = tlc.run("Syscall.tla", cfg, os.path.join(wd, "mc"), workers=12, timeout=300 if quick else 1500)
+    mc = tlc.run("Syscall.tla", cfg, os.path.join(wd, "mc"), workers=12, timeout=300 if quick else 1500, cache=True)
     if mc.error:
         raise ToolError("TLC error in Syscall.tla:\n" + mc.error)
     gconsts = dict(consts, MaxCalls=6 if quick else 8, MaxOps=3, MaxDepth=4)
     gcfg = os.path.join(wd, "SCG.cfg")
     tlc.write_cfg(gcfg, "Spec", gconsts, invariants=["Emitted"])
     num = 1500 if quick else 20000
-    gen = tlc.run("SCGen.tla", gcfg, os.path.join(wd, "gen"), workers=1, timeout=300 if quick else 1500,
+    gen = tlc.run("SCGen.tla", gcfg, os.path.join(wd, "gen"), workers=1, cache=True, timeout=300 if quick else 1500,
                   extra=["-simulate", "num=%d" % num, "-depth", "300", "-seed", str(seed)])
     hists = list(progs.parse_replay_lines(gen.stdout))
     if not hists:
